@@ -298,6 +298,24 @@ def corpus_mutation(rng):
     return mutate_text(rng, text)
 
 
+def bulk_statement(rng):
+    """One statement of 10 000 - 25 000 tokens (bulk INSERT, long IN list,
+    long select list): size thresholds and quadratic bookkeeping only show
+    on inputs of this size."""
+    x = rng.random()
+    n = rng.choice([1300, 1700, 2600])
+    ws = rng.choice([' ', ' ', '\n', '  '])
+    if x < 0.4:
+        rows = (',' + ws).join("(%d,%s'name%d')" % (i, rng.choice(['', ' ']),
+                                                   i) for i in range(n))
+        return 'insert into t (a, b) values ' + rows + ';'
+    if x < 0.7:
+        items = (',' + ws).join(str(i) for i in range(n * 2))
+        return 'select * from t where a in (' + items + ') order by 1;'
+    cols = (',' + ws).join('c%d as a%d' % (i, i) for i in range(n))
+    return 'select ' + cols + ' from t;' + ' select 2;'
+
+
 EDGE_CHARS = ['\ufeff', '\ufeff', '\x00', '\xa0', '\u200b', '\r', '\x1c',
               '\ufffe', '\u2028', '\x85', '\x0c', '\ufeff\ufeff', ';', '#']
 
